@@ -58,6 +58,7 @@ func verdict(res string) string {
 }
 
 func (r *runner) runPaddingBits() {
+	defer timed("padding")()
 	w := r.w
 	r.o.Case("multi/send/bitmap-padding-bits")
 	r.f, r.sent, r.decl = &facts{}, 0, map[string]bool{}
